@@ -117,7 +117,7 @@ def rtd(case, ctx, rng):
     r0 = rng.choice([100.0, 1000.0, 500.0, rng.uniform(50, 2000)])
     a = 3.9083e-3 * rng.choice([1.0, 1.0, rng.uniform(0.97, 1.03)])
     b = -5.775e-7 * rng.choice([1.0, 1.0, rng.uniform(0.97, 1.03)])
-    c = -4.183e-12 * rng.choice([1.0, 1.0, rng.uniform(0.9, 1.1)])
+    c = -4.183e-12 * rng.choice([1.0, 1.0, rng.uniform(0.9, 1.1), 0.0])      # C = 0: a sensor characterised by A and B only
     current = rng.choice([1e-3, 1e-4, 5e-4, rng.uniform(1e-4, 2e-3)])
     config = rng.choice([2, 3, 4])
     lead = rng.choice([0.0, 0.0, rng.uniform(0.01, 5.0)])
